@@ -31,6 +31,11 @@ func (g *G) MutateOne(m protoreflect.Message) string {
 			return path + fmt.Sprintf("[%d] value changed", k.Int())
 		}
 		k := int32(70 + g.Int(5))
+		if g.Chance(0.25) {
+			// an entry whose value is the empty string is still an entry
+			mp.Set(protoreflect.ValueOfInt32(k).MapKey(), protoreflect.ValueOfString(""))
+			return path + fmt.Sprintf("[%d] added with an empty value", k)
+		}
 		mp.Set(protoreflect.ValueOfInt32(k).MapKey(), protoreflect.ValueOfString("mut"))
 		return path + fmt.Sprintf("[%d] added", k)
 	case fd.IsList():
@@ -160,6 +165,10 @@ func walkPoints(m protoreflect.Message, n *int, target int) string {
 			if hit() {
 				m.Mutable(fd).Map().Set(protoreflect.ValueOfInt32(77).MapKey(), protoreflect.ValueOfString("mut"))
 				return path + "[77] added"
+			}
+			if hit() {
+				m.Mutable(fd).Map().Set(protoreflect.ValueOfInt32(78).MapKey(), protoreflect.ValueOfString(""))
+				return path + "[78] added with an empty value"
 			}
 		case fd.IsList():
 			ln := m.Get(fd).List().Len()
